@@ -26,6 +26,7 @@ def run(ctx):
     ctx.each(r07e, ctx, repo)
     ctx.each(r07g, ctx, repo)
     ctx.each(r07i, ctx, repo)
+    ctx.each(r07j, ctx, repo)
     ctx.each(flowalg.share_rule, ctx, repo, "R07h")  # people placed in a junction by the databook are passed on in full by the initial flush
     ctx.each(flowalg.accumulator_rule, ctx, repo, "R07f", [("model", "Characteristic.update"), ("model", "Characteristic.vals")], 4, "the characteristic sums")
     # the solved initial size reaches a timed compartment through TimedCompartment.__setitem__ (and the flush through dest[0] +=): the rows must add up to the value
@@ -347,3 +348,36 @@ def r07i(ctx, repo):
     muts = [c for c in own_nodes(ai.node) if isinstance(c, ast.Call) and isinstance(c.func, ast.Attribute) and c.func.attr in ("append", "extend", "insert", "add", "update") and ast.unparse(c.func.value).startswith(me2 + ".")]
     ok = not stores and len(muts) == 1 and ast.unparse(muts[0].func.value) == "%s.includes" % me2
     ctx.check(ok, "R07i", ai, ai.node, "add_include only records the member", "Characteristic.add_include maintains more than the list of members (%s): derived data kept at wiring time depend on the wiring order" % ", ".join([norm(s)[:40] for s in stores] + [ast.unparse(c)[:40] for c in muts[1:]]), stmt_text="add_include")
+
+
+def r07j(ctx, repo):
+    from ..core import boolx as B
+
+    ctx.rule("R07j", "which quantities take part in the initialisation does not depend on how the framework spells it: for compartments and for characteristics, the default setup weight given when the sheet has no 'setup weight' column at all (`X['setup weight'] = (<condition>).astype(float)`) and the default given to blank cells when the column exists (`fill_ones = X['setup weight'].isna() & <condition>`) use the same condition - in the databook or has a default value (and, for compartments, neither source nor sink); a quantity that has a default value but gets weight 0 in one spelling drops its row from the initial linear system, which then no longer determines the compartments it pins")
+    n = 0
+    for fi in repo.module("framework").all_functions():
+        whole, blank = [], []
+        for s_ in own_nodes(fi.node):
+            if isinstance(s_, ast.Assign) and isinstance(s_.targets[0], ast.Subscript) and isinstance(s_.targets[0].slice, ast.Constant) and s_.targets[0].slice.value == "setup weight" and isinstance(s_.value, ast.Call) and isinstance(s_.value.func, ast.Attribute) and s_.value.func.attr == "astype" and ast.unparse(s_.value.func.value) != ast.unparse(s_.targets[0]):
+                whole.append((ast.unparse(s_.targets[0].value), s_.value.func.value, s_))
+            if isinstance(s_, ast.Assign) and astq.is_name(s_.targets[0], "fill_ones") and isinstance(s_.value, ast.BinOp):
+                blank.append((s_.value, s_))
+        for frame, cond, st in whole:
+            mine = [(c, b) for c, b in blank if frame in ast.unparse(c)]
+            if len(mine) != 1:
+                continue
+            n += 1
+            isna = "%s['setup weight'].isna()" % frame
+
+            def as_cond(e):
+                t = ast.unparse(e).replace("~", " not ").replace("|", " or ").replace("&", " and ").strip()
+                return B.parse_cond(t)
+
+            try:
+                a = as_cond(cond)
+                b = as_cond(mine[0][0])
+                ok = B.equivalent(B.Cond(lambda env, a=a: a(env) and env[isna], a.atoms | {isna}), b)
+            except (SyntaxError, ValueError, KeyError):
+                ok = False
+            ctx.check(ok, "R07j", fi, st, "%s: default setup weight is the same with and without the column" % frame, "the default setup weight of `%s` when the column is missing (`%s`) is not the condition used for blank cells when it exists (`%s`): whether a quantity with a default value constrains the initial state depends on whether the sheet has an (empty) 'setup weight' column" % (frame, ast.unparse(cond)[:110], ast.unparse(mine[0][0])[:130]), stmt_text="setup-weight-default:%s" % frame)
+    ctx.require(n >= 2, "R07j: the two setup-weight defaults (compartments, characteristics) were not both found (%d)" % n)
